@@ -433,7 +433,7 @@ func leakDetail(out *Outcome) string {
 }
 
 func caseC11(c *Ctx) {
-	arm := pickArm(c, []string{"core", "malformed"}, 5, 5)
+	arm := pickArm(c, []string{"core", "malformed", "extended"}, 5, 4, 2)
 	s := genMassiveScenario(c, arm, 6)
 	plan := genFaultPlan(c, s.op, len(s.doc), true)
 	s.describe(c)
@@ -519,7 +519,7 @@ func caseC11(c *Ctx) {
 				complete, why = false, cl+": "+w
 			}
 			otherFault := got.ReaderFired || got.WriterFired || got.CbFired || got.DiskFired > 0
-			if !complete && !otherFault {
+			if !complete && !otherFault && !(arm == "extended" && !strings.HasPrefix(why, "output-truncated") && !strings.HasPrefix(why, "walk-truncated")) {
 				c.Failf("C11:cancelled-but-nil-incomplete:"+s.op.Kind+":"+cls, "context %s at step %d before the call returned; the call returned nil with an incomplete result (%s)", plan.ctx.Mode, got.CancelStep, why)
 			}
 			c.st.Count("cancel:nil-complete")
@@ -527,7 +527,9 @@ func caseC11(c *Ctx) {
 			c.st.Count("cancel:ctx-error")
 		default:
 			explained := ref.Err != nil || got.ReaderFired || got.WriterFired || got.CbFired || got.DiskFired > 0
-			if !explained {
+			// on the extended spellings massive mode may fail where simple mode does not
+			// (C10's known findings); that is not judged a second time here
+			if !explained && arm != "extended" {
 				c.Failf("C11:cancelled-unexplained-error:"+s.op.Kind, "context cancelled at step %d; the call returned %q, which is neither the context's error nor an error of the input or an injected fault", got.CancelStep, got.Err)
 			}
 			c.st.Count("cancel:other-true-error")
